@@ -7,7 +7,8 @@
    - scopes: local (per thread), group (shared by the threads started with `thread` from the
      same group; `waitthread` runs its callee in a new, empty group - as the engine does),
      level / game / parm (global);
-   - expressions: literals, variables, a[i], unary - ! ~, + - * / % & | ^ << >>, == != < <= > >=,
+   - expressions: literals, variables, a[i], unary - ! ~, + - * / % & | ^ << >> (a shift count
+     outside 0..63 shifts everything out: 0, or the sign for >>), == != < <= > >=,
      && || (short circuit, result 0/1), string concatenation (int + string and string + int
      concatenate the decimal form), .size, e1::e2 constant arrays, `waitthread f args`;
    - statements: assignment (also to a[i], a[i][j]: missing intermediate arrays are created;
@@ -17,8 +18,7 @@
      top-level label, try / catch / throw (innermost enclosing try whose catch block has
      the label; parameters are bound from the thrown arguments), println, thread calls, end.
    A result of None means: out of fuel, or the program is outside the error-free core
-   (type error, division by zero, shift count outside 0..63 or a left shift that does not
-   fit, unhandled throw, break outside a loop, missing label, call depth > max_depth, ...).
+   (type error, division by zero, unhandled throw, break outside a loop, missing label, call depth > max_depth, ...).
    Such programs are not part of the quantifier and are dropped by the check.
    No proofs in this file. *)
 From Coq Require Import ZArith List Ascii Bool.
@@ -120,9 +120,9 @@ Definition int_op (o : binop) (x y : Z) : option value :=
   | OBand => Some (VInt (Z.land x y))
   | OBor => Some (VInt (Z.lor x y))
   | OBxor => Some (VInt (Z.lxor x y))
-  | OShl => if (0 <=? y) && (y <? 64) && (0 <=? x) && (x * 2 ^ y <? 2 ^ 64)
-            then Some (VInt (wrap (x * 2 ^ y))) else None
-  | OShr => if (0 <=? y) && (y <? 64) then Some (VInt (Z.shiftr x y)) else None
+  | OShl => if (0 <=? y) && (y <? 64) then Some (VInt (wrap (x * 2 ^ y))) else Some (VInt 0)
+  | OShr => if (0 <=? y) && (y <? 64) then Some (VInt (Z.shiftr x y))
+            else Some (VInt (if x <? 0 then -1 else 0))
   | OEq => Some (vbool (x =? y))
   | ONe => Some (vbool (negb (x =? y)))
   | OLt => Some (vbool (x <? y))
